@@ -80,6 +80,8 @@ const EDGES: &[(&str, &str, bool)] = &[
     ("range_loop_evicted", "var total = 0; for i in 200..203 { var k = 1; while k <= 12 { var r = (0 - k)..(6 + i); k = k + 1; } churn(); total = total + i; } print(total);", false),
     ("range_in_container_evicted", "var h = [300..303, (400..401, 1)]; var k = 1; while k <= 12 { var r = (0 - k)..7; k = k + 1; } churn(); print(h); print(h[0].iter().collect());", false),
     ("range_map_iter_evicted", "var h = (500..503).iter().map(|x| [x]); var k = 1; while k <= 12 { var r = (0 - k)..8; k = k + 1; } churn(); print(h.collect());", false),
+    ("failed_module_survivor", "var h = nil; try { import \"mthrow\"; } catch e { h = e; } churn(); print(h.describe()); import \"m0\"; churn(); print(h.describe()); print(h.again()());", false),
+    ("failed_module_function", "var h = nil; try { import \"mthrow\"; } catch e { h = e.again; } churn(); import \"m0\"; churn(); print(h()());", false),
     ("suspended_fiber_closure", "var g = nil; fn mk() { var f = Fiber.new(|| { var x = @O; g = || x; Fiber.yield(1); return 2; }); f.call(); return f; } var keepf = mk(); churn(); print(g()); print(keepf.call());", false),
     ("abandoned_suspended_fiber_closure", "var g = nil; fn mk() { var f = Fiber.new(|| { var x = @O; g = || x; Fiber.yield(1); return 2; }); f.call(); } mk(); churn(); print(g());", false),
     ("abandoned_fiber_closure", "var g = nil; fn mk() { var f = Fiber.new(|| { var x = @O; g = || x; return 1; }); f.call(); } mk(); churn(); print(g());", false),
@@ -97,7 +99,15 @@ fn sole_edge(index: usize) -> Option<(String, Vec<(String, String)>, String)> {
         return None;
     }
     let body = tpl.replace("@O", obj);
-    let modules = vec![("m0".to_string(), format!("var val = {};\nfn get() {{ return || val; }}\n", obj))];
+    let modules = vec![
+        ("m0".to_string(), format!("var val = {};\nfn get() {{ return || val; }}\n", obj)),
+        // a module whose top-level code throws an instance of its own class: what survives the failed
+        // import (the instance, its class, its methods) still uses the module's globals
+        (
+            "mthrow".to_string(),
+            format!("var tag = {};\nfn helper() {{ return [tag]; }}\n#[constructor(new)]\nclass ME {{\n  fn describe(self) {{ return [tag, helper()]; }}\n  fn again(self) {{ return || [tag, helper]; }}\n}}\nthrow ME.new();\nvar never = 1;\n", obj),
+        ),
+    ];
     Some((format!("{}{}\n", CHURN, body), modules, format!("{} x {}", name, obj)))
 }
 
